@@ -8,6 +8,7 @@ package netsim
 import (
 	"fmt"
 	"math/rand"
+	"net"
 	"os"
 	"regexp"
 	"sort"
@@ -36,7 +37,10 @@ func init() {
 
 func peerLines(t *tr.W, s *Sim) {
 	for i, p := range s.Peers {
-		host, port, _ := strings.Cut(p.Addr, ":")
+		host, port, err := net.SplitHostPort(p.Addr)
+		if err != nil {
+			host, port, _ = strings.Cut(p.Addr, ":")
+		}
 		t.Op(fmt.Sprintf("peer %d %s", i, p.B), fmt.Sprintf("addr %s %s", host, port))
 		t.Hit("peer." + p.B.Kind)
 	}
@@ -68,6 +72,11 @@ func DriveC13(t *tr.W, thorough bool) {
 		{"other-ip-direct", []string{"10.0.0.5:18444", "10.0.0.6:18444"}, []Behaviour{honest(), honest()}, "direct", 0},
 		{"same-ip-lie", []string{"10.0.0.5:18444", "10.0.0.5:18445", "10.0.0.7:18444"},
 			[]Behaviour{{Kind: "liarCFHeaders", H: 1 << 20, Variant: "inconsistent"}, honest(), honest()}, "lie", 0},
+		// IPv6 peers: two on one address (different ports), a third elsewhere (another /64)
+		{"ipv6-same-ip-direct", []string{"[2001:db8::5]:18444", "[2001:db8::5]:18445", "[2001:db8:0:2::1]:18444"},
+			[]Behaviour{honest(), honest(), honest()}, "direct", 0},
+		{"ipv6-same-ip-lie", []string{"[2001:db8:0:1::9]:18444", "[2001:db8:0:1::9]:18445", "10.0.0.7:18444"},
+			[]Behaviour{{Kind: "liarCFHeaders", H: 1 << 20, Variant: "inconsistent"}, honest(), honest()}, "lie", 0},
 		// a second connection to the banned IP is still in its version handshake when the first one is banned
 		// (directly / for a lie) and completes it afterwards: handleAddPeerMsg must turn it away
 		{"handshake-race-direct", []string{"10.0.0.5:18444", "10.0.0.7:18444", "10.0.0.5:18445"},
@@ -90,7 +99,8 @@ func DriveC13(t *tr.W, thorough bool) {
 		t.Case("c13 %s len %d npeers %d", v.name, l, len(v.peers))
 		s, err := New(sc, rng, t.Op)
 		if err != nil {
-			t.Op("setup", "err "+err.Error())
+			t.Line("# setup error: %s", sanitize(err.Error()))
+			t.Op("setup", "err")
 			continue
 		}
 		peerLines(t, s)
@@ -100,7 +110,8 @@ func DriveC13(t *tr.W, thorough bool) {
 			held.HoldGate = make(chan struct{})
 		}
 		if err := s.Start(); err != nil {
-			t.Op("start", "err "+err.Error())
+			t.Line("# start error: %s", sanitize(err.Error()))
+			t.Op("start", "err")
 			s.Cleanup()
 			continue
 		}
